@@ -143,6 +143,8 @@ def _apps(t, acc, seen, allacc=None):
                     allacc.append((ap, t))
         if allacc is not None and d.kind() == z3.Z3_OP_SEQ_CONCAT and t.num_args() >= 2:
             allacc.append((None, t))
+        if allacc is not None and d.kind() == z3.Z3_OP_SEQ_NTH and t.num_args() == 2 and not z3.is_int_value(t.arg(1)):
+            allacc.append(("nth", t))
         for i in range(t.num_args()):
             _apps(t.arg(i), acc, seen, allacc)
     elif z3.is_quantifier(t):
@@ -216,6 +218,7 @@ class Unfolder:
         self.all_done = set()
         self.prefix_lens = {}       # concat term id -> lengths of its proper prefixes (index offsets)
         self._allnew = []
+        self.index_terms = {}       # sequence term id -> symbolic index terms used on it (q[j])
 
     def add(self, formulas):
         out = []
@@ -294,6 +297,9 @@ def _all_instances(self):
     new = self._allnew
     self._allnew = []
     for ap, t in new:
+        if ap == "nth":
+            self.index_terms.setdefault(z3.simplify(t.arg(0)).get_id(), []).append(t.arg(1))
+            continue
         if ap is None:
             acc = None
             for i in range(t.num_args() - 1):
@@ -317,7 +323,7 @@ def _all_instances(self):
             # a constructed sequence in a hypothesis: elements at its ends
             idxs = [z3.IntVal(0), L - 1]
         else:
-            idxs = [z3.IntVal(0), L - 1]
+            idxs = [z3.IntVal(0), L - 1] + list(self.index_terms.get(z3.simplify(q).get_id(), []))
             for ap2, t2, k2, sub2 in cons:
                 if q.get_id() in sub2:
                     idxs += [k2, k2 + 1]
